@@ -24,3 +24,11 @@ Theorem C08_extend_left_is_rescoring : forall n T M, (2 <= n)%nat -> TInv n T M 
      forall i, (r_len r - 1 < i <= length (c1 ++ c2))%nat -> T (w :: firstn i (c1 ++ c2)) = None) /\
   (length c1 < r_len r)%nat.
 Proof. intros n T M Hn I c1 c2 w e He Hl. exact (extend_left_rescoring n Hn T M I c1 c2 w e He Hl). Qed.
+
+(* A rule that starts with a sub-derivation simply continues that fragment: NonTerminal on the initial rule state
+   and BeginNonTerminal both resume the fragment's own rule state (pointers, right state, completeness, score).
+   With C08_terminals_after_bos this makes every left-branching derivation equal to left-to-right scoring. *)
+Theorem C08_rule_starting_with_subderivation_partial : forall n T dr c p,
+  (l_ptrs (c_left c) = [] -> l_full (c_left c) = false -> c_right c = null_state) ->
+  rs_nonterminal n T dr rs_init c p = resume_of c p /\ rs_begin_nonterminal c p = resume_of c p.
+Proof. intros n T dr c p H. split; [apply nonterminal_from_init; exact H|reflexivity]. Qed.
